@@ -445,7 +445,8 @@ def replay(rec):
     else:
         import vf.props.c20 as me
         orig = me.text_cases
-        me.text_cases = lambda tier: [('replay', tag)]
+        fam_ = next((f for f, t in orig('thorough') if t == tag), 'replay')
+        me.text_cases = lambda tier: [(fam_, tag)]
         try:
             acc = run_text((0, 1, 'thorough'))
         finally:
